@@ -91,6 +91,19 @@ claim("C18",
       "The two-endpoint exactly-once composition is NOT claimed.",
       "Trusted: executor + scripted line model, z3. Outside/N-A: end-to-end two-endpoint composition under fault schedules, length-character corruption, multi-block messages over the faulty line.")
 
+claim("C13",
+      "Bounded symbolic model check of the strict SML round trip on the real encoder and parser: ASCII items of 0..2 (thorough 3) bytes over all 256 byte values under 4 joint option/header configurations (thorough: all option combinations and boundary stream/function values), binary/boolean symbolic, all 8-bit integers, wider integers and floats on boundary/witness tables, nesting; "
+      "and parser-accepted text templates re-encoded and re-parsed. Rendered text parses back to one message with the same stream/function/W and an Equal body.",
+      "Trusted: executor + models (symbolic formatter, host float conversion), z3. Outside: float text beyond witnesses, JIS-8/localized text, symbolic wide integers, longer ASCII items.")
+
+claim("C14",
+      "Bounded symbolic model check of parser totality on 21 grammar-directed templates with fully symbolic holes, strict and non-strict: no panic on any path (every run-time panic site is an obligation), messages xor error, ParseError offset within the input with line/column equal to an independent recount, parsed messages valid, and an allocation guard of 64*len+4096 bytes with size hints up to 2^31-1 and beyond; two instances used alternately behave like fresh ones.",
+      "Trusted: executor + models, z3, native confirmation of allocation excess via runtime.MemStats. Outside/N-A: concurrent instances (race detector domain), wall-clock time/stack, more than 2 symbolic bytes per template.")
+
+claim("C15",
+      "Bounded symbolic model check that the default encoder and Item.ToSML produce byte-identical text: both renderers run on the same symbolic item (16 leaf kinds with 0..2 elements, list trees to depth 2 with empty lists and empty-item children) with integer/boolean/binary/text contents symbolic and floats from a witness table, compared byte for byte; the rendering of integer, boolean and binary elements is parsed back to an Equal item.",
+      "Trusted: executor + symbolic-capable fmt model, the real strconv code for integers, host strconv for concrete floats, z3. Outside: float digit semantics and float read-back, W text with non-printable runes.")
+
 for _p, _r in {
     "C03": "check not yet registered in this session (work in progress, see DESIGN.md §3)",
     "C04": "check not yet registered in this session (work in progress, see DESIGN.md §3)",
